@@ -423,7 +423,7 @@ fn user_quant(k: u8, which: u8) {
     std::mem::forget(coll);
 }
 
-//@ harness: c06_some_bool tier=thorough timeout=900 kind=main mem=28 optional=1
+//@ harness: c06_some_bool tier=thorough timeout=900 kind=main mem=16 optional=1
 //@ encodes: op::array::some, op::logic::truthy_from_evaluated, op::logic::truthy (Parsed::from_value replaced by its recording twin: literals parse to Raw, C02; Value::clone by the bounded model)
 //@ bound: collection [5] (literal), literal predicate v = Bool(any): the operator's decision equals the truthiness table
 #[cfg_attr(kani, kani::proof)]
@@ -436,7 +436,7 @@ pub fn c06_some_bool() {
     user_quant(1, 1);
 }
 
-//@ harness: c06_filter_bool tier=thorough timeout=900 kind=main mem=28 optional=1
+//@ harness: c06_filter_bool tier=thorough timeout=900 kind=main mem=16 optional=1
 //@ encodes: op::array::filter, op::logic::truthy_from_evaluated, op::logic::truthy (Parsed::from_value replaced by its recording twin: literals parse to Raw, C02; Value::clone by the bounded model)
 //@ bound: collection [5] (literal), literal predicate v = Bool(any): the operator's decision equals the truthiness table
 #[cfg_attr(kani, kani::proof)]
@@ -449,7 +449,7 @@ pub fn c06_filter_bool() {
     user_quant(1, 3);
 }
 
-//@ harness: c06_all_f64 tier=thorough timeout=900 kind=main mem=28 optional=1
+//@ harness: c06_all_f64 tier=thorough timeout=900 kind=main mem=16 optional=1
 //@ encodes: op::array::all, op::logic::truthy_from_evaluated, op::logic::truthy (Parsed::from_value replaced by its recording twin: literals parse to Raw, C02; Value::clone by the bounded model)
 //@ bound: collection [5] (literal), literal predicate v = Number(any finite f64, incl. -0.0): the operator's decision equals the truthiness table
 #[cfg_attr(kani, kani::proof)]
@@ -462,7 +462,7 @@ pub fn c06_all_f64() {
     user_quant(4, 0);
 }
 
-//@ harness: c06_filter_f64 tier=thorough timeout=900 kind=main mem=28 optional=1
+//@ harness: c06_filter_f64 tier=thorough timeout=900 kind=main mem=16 optional=1
 //@ encodes: op::array::filter, op::logic::truthy_from_evaluated, op::logic::truthy (Parsed::from_value replaced by its recording twin: literals parse to Raw, C02; Value::clone by the bounded model)
 //@ bound: collection [5] (literal), literal predicate v = Number(any finite f64, incl. -0.0): the operator's decision equals the truthiness table
 #[cfg_attr(kani, kani::proof)]
@@ -488,7 +488,7 @@ pub fn c06_some_str() {
     user_quant(5, 1);
 }
 
-//@ harness: c06_none_emptyarr tier=thorough timeout=900 kind=main mem=28 optional=1
+//@ harness: c06_none_emptyarr tier=thorough timeout=900 kind=main mem=16 optional=1
 //@ encodes: op::array::none, op::logic::truthy_from_evaluated, op::logic::truthy (Parsed::from_value replaced by its recording twin: literals parse to Raw, C02; Value::clone by the bounded model)
 //@ bound: collection [5] (literal), literal predicate v = []: the operator's decision equals the truthiness table
 #[cfg_attr(kani, kani::proof)]
@@ -501,7 +501,7 @@ pub fn c06_none_emptyarr() {
     user_quant(6, 2);
 }
 
-//@ harness: c06_all_obj tier=thorough timeout=900 kind=main mem=28 optional=1
+//@ harness: c06_all_obj tier=thorough timeout=900 kind=main mem=16 optional=1
 //@ encodes: op::array::all, op::logic::truthy_from_evaluated, op::logic::truthy (Parsed::from_value replaced by its recording twin: literals parse to Raw, C02; Value::clone by the bounded model)
 //@ bound: collection [5] (literal), literal predicate v = {}: the operator's decision equals the truthiness table
 #[cfg_attr(kani, kani::proof)]
